@@ -171,8 +171,12 @@ def case_log(seed, out, spec, wd):
     nhits = r.randrange(1, 5)
     inputs = []
     for _ in range(nhits):
+        data = [r.randrange(9) for _ in range(r.randrange(1, 5))]
+        if collect and r.chance(0.15):
+            # a frame far larger than the snapshot's variable limit: the message must still render every field
+            data = [[[i * 100 + j * 10 + k for k in range(10)] for j in range(10)] for i in range(11)]
         inputs.append((r.randrange(0, 7), r.pick(['ann', 'bob', '7', 'Ünï', '  padded  ', 'two\nlines', '', '{braces}', '%d']), r.pick(['p1', 'p2']),
-                       [r.randrange(9) for _ in range(r.randrange(1, 5))], r.pick(['nostr', 'plain'])))
+                       data, r.pick(['nostr', 'plain'])))
     expected = []   # per hit: (text, fields)
     observed = {}   # hit -> [(tp_id_arg, ctx_arg, msg)]
     pylog = {}
@@ -317,7 +321,10 @@ def case_log(seed, out, spec, wd):
                 return
             probs = snapcheck.Problems()
             from vf.props.c02 import compare_watch
+            budget_hit = len(s.var_lookup) + len(s.frames) + 1 >= snapcheck.default_limits()['max_vars']
             for w, (f, v, failed) in zip(lw, fvals):
+                if budget_hit and failed is None and w.error:
+                    continue   # the variable limit is used up: an explicit error result is legitimate, the text is not
                 compare_watch(s, w, v, failed, set(), probs)
             snapcheck.check_closed(s, probs)
             for mech, what in probs:
